@@ -258,7 +258,7 @@ pub fn mem_history(seed: u64, thorough: bool) -> History {
     let sizes: &[u32] = if thorough { &[150, 199, 200, 201, 300, 450, 520, 1000] } else { &[150, 199, 200, 201, 300, 450, 520] };
     let n = *sizes.choose(&mut rng).unwrap();
     let item_bytes = (n as usize) * (dim * 4 + 16);
-    let mems = [Some(0usize), Some(4096), Some(16 * 4096), Some(item_bytes), Some(item_bytes / 2), Some(1 << 30), None];
+    let mems = [Some(0usize), Some(4096), Some(16 * 4096), Some(item_bytes), Some(item_bytes / 2), Some(1 << 30), None, Some(usize::MAX), Some(usize::MAX / 2 + 1)];
     let split = *[None, None, Some(50usize), Some(250)].choose(&mut rng).unwrap();
     let n_trees = *[None, Some(1), Some(3)].choose(&mut rng).unwrap();
     let mut mk = |rng: &mut StdRng| BuildOpts {
